@@ -7,13 +7,23 @@
 From CM Require Import Lib.Str Lib.Wire Cache.Model.
 Open Scope N_scope.
 
+(** one step of a case: what was done, together with what the implementation answered / showed *)
+Inductive wstep :=
+| WOp (o : op)
+| WBatch (cap_after : nat)                 (* operations ran concurrently, unordered: only the quiescent
+                                              state (and the capacity then configured) is observed *)
+| WSetCap (z : Z) (victims : list hash) (cap_obs : nat)   (* SetOptions(Capacity: z); observed: the
+                                              certificates that disappeared, the capacity now in force *)
+| WQuery (q : name) (ans : list hash)      (* AllMatchingCertificates(q) -> hashes *)
+| WStop                                    (* Cache.Stop returned *)
+| WScan (renew : bool) (seen : list (hash * list str)).   (* a maintenance scan: the (hash, tags) the
+                                              ConfigGetter was shown *)
+
 Record case := Case {
-  k_cap : nat;
+  k_cap : nat;                             (* the capacity the cache is created with *)
   k_pool : list cert;
-  k_steps : list (option op * state);     (* operation (None: operations ran concurrently,
-                                             unordered -- only the quiescent state is observed),
-                                             state observed after it *)
-  k_queries : list (name * list hash)     (* AllMatchingCertificates(name) -> hashes, at the end *)
+  k_steps : list (wstep * state);          (* step, both maps observed after it *)
+  k_queries : list (name * list hash)      (* AllMatchingCertificates(name) -> hashes, at the end *)
 }.
 
 (** ---- wire ---- *)
@@ -32,18 +42,23 @@ Definition get_op : dec op :=
    else if tag =? 7 then h <- get_str ;; v <- get_str ;; ret (OSetARI h v)
    else (fun _ => None))%Z.
 (** tag 8: a batch of operations that ran concurrently (free-running goroutines); their order
-    is unknown, the model adopts the quiescent state, the specification is evaluated on it *)
-Definition get_step_op : dec (option op) :=
+    is unknown, the model adopts the quiescent state, the specification is evaluated on it;
+    9 SetOptions, 10 AllMatchingCertificates, 11 Stop, 12 maintenance scan *)
+Definition get_wstep : dec wstep :=
   (fun l => match l with
-            | 8%Z :: r => Some (None, r)
-            | _ => match get_op l with Some (o, r) => Some (Some o, r) | None => None end
+            | 8%Z :: r => (c <- get_nat ;; ret (WBatch c)) r
+            | 9%Z :: r => (z <- get_z ;; vs <- get_list get_str ;; c <- get_nat ;; ret (WSetCap z vs c)) r
+            | 10%Z :: r => (q <- get_str ;; a <- get_list get_str ;; ret (WQuery q a)) r
+            | 11%Z :: r => Some (WStop, r)
+            | 12%Z :: r => (b <- get_bool ;; seen <- get_list (get_pair get_str (get_list get_str)) ;; ret (WScan b seen)) r
+            | _ => match get_op l with Some (o, r) => Some (WOp o, r) | None => None end
             end).
 Definition get_state : dec state :=
   (c <- get_list (get_pair get_str get_cert) ;;
    i <- get_list (get_pair get_str (get_list get_str)) ;; ret (St c i))%Z.
 Definition get_case : dec case :=
   (cap <- get_nat ;; pool <- get_list get_cert ;;
-   steps <- get_list (get_pair get_step_op get_state) ;;
+   steps <- get_list (get_pair get_wstep get_state) ;;
    qs <- get_list (get_pair get_str (get_list get_str)) ;;
    ret (Case cap pool steps qs))%Z.
 
@@ -54,22 +69,46 @@ Definition amap_eqb {V} (veq : V -> V -> bool) (m obs : amap V) : bool :=
 Definition state_eqb (m obs : state) : bool :=
   amap_eqb cert_eqb (cache m) (cache obs) && amap_eqb strs_eqb (index m) (index obs).
 
-(** model side: replay, compare after every operation; 0 = agrees *)
-Fixpoint replay (cap : nat) (s : state) (steps : list (option op * state)) : list bool * state :=
+(** the (hash, tags) view of a scan *)
+Definition view_of (l : list cert) : list (hash * list str) := map (fun c => (c_hash c, c_tags c)) l.
+Definition view_eqb (m obs : list (hash * list str)) : bool :=
+  Nat.eqb (length m) (length obs) && nodup_b (map fst obs) &&
+  forallb (fun p => existsb (fun p' => str_eqb (fst p) (fst p') && strs_eqb (snd p) (snd p')) m) obs.
+
+(** the model's step for a wire step, and what the model answers where the step has an answer *)
+Definition dop_of (w : wstep) : dop :=
+  match w with
+  | WOp o => DOp o
+  | WBatch _ => DStop
+  | WSetCap z vs _ => DSetCap z vs
+  | WQuery q _ => DQuery q
+  | WStop => DStop
+  | WScan r _ => DScan r
+  end.
+Definition answer_agrees (w : wstep) (d : dstate) : bool :=
+  match w with
+  | WSetCap _ _ c => Nat.eqb (d_cap d) c
+  | WQuery q ans => strs_eqb (answer (d_st d) q) ans
+  | WScan r seen => view_eqb (view_of (scan_view r (d_st d))) seen
+  | _ => true
+  end.
+
+(** model side: replay, compare after every operation *)
+Fixpoint replay (d : dstate) (steps : list (wstep * state)) : list bool * dstate :=
   match steps with
-  | [] => ([], s)
-  | (Some o, obs) :: r =>
-      let s' := step cap s o in
-      let (bs, sf) := replay cap s' r in
-      (state_eqb s' obs :: bs, sf)
-  | (None, obs) :: r =>
-      let (bs, sf) := replay cap obs r in (true :: bs, sf)
+  | [] => ([], d)
+  | (WBatch c, obs) :: r =>
+      let (bs, df) := replay (DSt c obs) r in (true :: bs, df)
+  | (w, obs) :: r =>
+      let d' := dstep d (dop_of w) in
+      let (bs, df) := replay d' r in
+      ((state_eqb (d_st d') obs && answer_agrees w d') :: bs, df)
   end.
 
 Definition model_agrees (c : case) : bool :=
-  let (bs, sf) := replay (k_cap c) init (k_steps c) in
+  let (bs, df) := replay (dinit (k_cap c)) (k_steps c) in
   forallb (fun b => b) bs &&
-  forallb (fun q => strs_eqb (map c_hash (all_matching sf (fst q))) (snd q)) (k_queries c).
+  forallb (fun q => strs_eqb (answer (d_st df) (fst q)) (snd q)) (k_queries c).
 
 (** ---- specification side: evaluated on the observations only ---- *)
 Definition names_of_pool (pool : list cert) (h : hash) : list name :=
@@ -90,12 +129,13 @@ Fixpoint dedup (l : list str) : list str :=
   | [] => []
   | x :: r => if mem_str x r then dedup r else x :: dedup r
   end.
-Definition certs_of_step (o : option op) : list cert :=
-  match o with Some o => certs_of_op o | None => [] end.
+Definition certs_of_step (w : wstep) : list cert :=
+  match w with WOp o => certs_of_op o | _ => [] end.
 Definition case_certs (c : case) : list cert :=
   k_pool c ++ flat_map (fun st => certs_of_step (fst st)) (k_steps c).
 Definition base_names (c : case) : list name :=
-  dedup (flat_map c_names (case_certs c) ++ map fst (k_queries c)).
+  dedup (flat_map c_names (case_certs c) ++ map fst (k_queries c) ++
+         flat_map (fun st => match fst st with WQuery q _ => [q] | _ => [] end) (k_steps c)).
 Definition base_hashes (c : case) : list hash := dedup ([] :: map c_hash (case_certs c)).
 Definition state_names (bn : list name) (s : state) : list name := dedup (bn ++ akeys (index s)).
 Definition state_hashes (bh : list hash) (s : state) : list hash :=
@@ -112,24 +152,13 @@ Definition readd_ok (prev : state) (c : cert) (next : state) : bool :=
       cert_eqb e' (set_tags e (c_tags e')) &&
       incl_b (c_tags e) (c_tags e') && incl_b (c_tags c) (c_tags e') &&
       incl_b (c_tags e') (c_tags e ++ c_tags c) &&
+      (negb (nodup_b (c_tags e)) || nodup_b (c_tags e')) &&
       forallb (fun kv => str_eqb (fst kv) (c_hash c) ||
                          match alookup (fst kv) (cache next) with
                          | Some x => cert_eqb x (snd kv) | None => false end) (cache prev)
   | Some _, None => false
   | None, _ => true
   end.
-Definition step_spec_b (prev : state) (o : option op) (next : state) : bool :=
-  match o with
-  | Some (OAdd c _) => readd_ok prev c next
-  | _ => true
-  end.
-
-Fixpoint steps_spec (prev : state) (steps : list (option op * state)) : bool :=
-  match steps with
-  | [] => true
-  | (o, obs) :: r => step_spec_b prev o obs && steps_spec obs r
-  end.
-
 (** AllMatchingCertificates answered exactly the cached certificates listing the name or one of
     its wildcard candidates (both sides are observations: the public API and the map snapshot) *)
 Definition covers_query (q : name) (c : cert) : bool :=
@@ -139,14 +168,87 @@ Definition query_ok (final : state) (q : name * list hash) : bool :=
                     | Some c => covers_query (fst q) c | None => false end) (snd q) &&
   forallb (fun kv => negb (covers_query (fst q) (snd kv)) || mem_str (fst kv) (snd q)) (cache final).
 
+(** write-backs ([same_but_field] says which field they may change): same index, same keys, every
+    entry as it was except that the entries under [hs] may differ in that one field *)
+Definition writeback_ok (same_but_field : cert -> cert -> bool) (hs : list hash) (prev next : state) : bool :=
+  amap_eqb strs_eqb (index next) (index prev) &&
+  Nat.eqb (length (cache next)) (length (cache prev)) &&
+  forallb (fun kv => match alookup (fst kv) (cache next) with
+                     | Some x => if mem_str (fst kv) hs then same_but_field (snd kv) x else cert_eqb x (snd kv)
+                     | None => false end) (cache prev).
+Definition same_but_ocsp (e x : cert) : bool := cert_eqb x (set_ocsp e (c_ocsp x)).
+Definition same_but_ari (e x : cert) : bool := cert_eqb x (set_ari e (c_ari x)).
+(** SetOptions: nothing but evictions, and exactly as many as needed *)
+Definition setcap_ok (prev : state) (n : nat) (next : state) : bool :=
+  forallb (fun kv => match alookup (fst kv) (cache prev) with
+                     | Some x => cert_eqb x (snd kv) | None => false end) (cache next) &&
+  Nat.eqb (length (cache next))
+          (if (0 <? n)%nat then Nat.min (length (cache prev)) n else length (cache prev)).
+(** a maintenance scan showed the ConfigGetter exactly the cached certificates it considers, with
+    the tags they have in the cache *)
+Definition scan_ok (renew : bool) (s : state) (seen : list (hash * list str)) : bool :=
+  nodup_b (map fst seen) &&
+  forallb (fun p => match alookup (fst p) (cache s) with
+                    | Some c => scan_sel renew c && strs_eqb (c_tags c) (snd p) | None => false end) seen &&
+  forallb (fun kv => negb (scan_sel renew (snd kv)) || mem_str (fst kv) (map fst seen)) (cache s).
+
+(** replacing on renewal: afterwards the new certificate is cached and the old one is not (unless
+    it is the same certificate) *)
+Definition replace_ok (old new : cert) (next : state) : bool :=
+  amem (c_hash new) (cache next) && (str_eqb (c_hash old) (c_hash new) || negb (amem (c_hash old) (cache next))).
+(** adding: afterwards the certificate is cached *)
+Definition add_ok (prev : state) (c : cert) (next : state) : bool :=
+  readd_ok prev c next && amem (c_hash c) (cache next).
+
+(** removals (by copy, by hash, by subject): afterwards exactly the cached certificates selected by
+    [gone] have disappeared, every other entry is as it was *)
+Definition removal_ok (gone : hash -> cert -> bool) (prev next : state) : bool :=
+  forallb (fun kv => match alookup (fst kv) (cache prev) with
+                     | Some x => cert_eqb x (snd kv) && negb (gone (fst kv) x) | None => false end) (cache next) &&
+  forallb (fun kv => gone (fst kv) (snd kv) || amem (fst kv) (cache next)) (cache prev).
+(** RemoveManaged(subjects): the managed certificates listing a subject, of that issuer if one is given *)
+Definition managed_gone (sj : list (name * str)) (k : hash) (c : cert) : bool :=
+  c_managed c &&
+  existsb (fun p => mem_str (fst p) (c_names c) && (is_nil (snd p) || str_eqb (c_issuer c) (snd p))) sj.
+
+Definition step_spec_b (prev : state) (w : wstep) (next : state) : bool :=
+  match w with
+  | WOp (ORemoveCert c) => removal_ok (fun k _ => str_eqb k (c_hash c)) prev next
+  | WOp (ORemoveHashes hs) => removal_ok (fun k _ => mem_str k hs) prev next
+  | WOp (ORemoveManaged sj) => removal_ok (managed_gone sj) prev next
+  | WOp (OAdd c _) => add_ok prev c next
+  | WOp (OReplace old new _) => replace_ok old new next
+  | WOp (OWriteBack c) => writeback_ok same_but_ocsp [c_hash c] prev next
+  | WOp (OSetARI h _) => writeback_ok same_but_ari [h] prev next
+  | WOp (OSetOCSP upd) => writeback_ok same_but_ocsp (map fst upd) prev next
+  | WSetCap z _ _ => setcap_ok prev (Z.to_nat z) next
+  | WQuery q ans => state_eqb prev next && query_ok next (q, ans)
+  | WStop => state_eqb prev next
+  | WScan r seen => state_eqb prev next && scan_ok r next seen
+  | _ => true
+  end.
+
+(** the capacity configured after a step *)
+Definition cap_after (cap : nat) (w : wstep) : nat :=
+  match w with WSetCap z _ _ => Z.to_nat z | WBatch c => c | _ => cap end.
+
+(** every observed state satisfies the invariant with the capacity configured at that moment, and
+    every step its own clause *)
+Fixpoint steps_spec (nm : hash -> list name) (bn : list name) (bh : list hash)
+         (cap : nat) (prev : state) (steps : list (wstep * state)) : bool :=
+  match steps with
+  | [] => true
+  | (w, obs) :: r =>
+      let cap' := cap_after cap w in
+      inv_b nm cap' (state_names bn obs) (state_hashes bh obs) obs &&
+      step_spec_b prev w obs && steps_spec nm bn bh cap' obs r
+  end.
+
 Definition final_obs (c : case) : state := last (map snd (k_steps c)) init.
 
 Definition spec_ok (c : case) : bool :=
   let nm := names_of_pool (case_certs c) in
-  let bn := base_names c in
-  let bh := base_hashes c in
-  forallb (fun st => inv_b nm (k_cap c) (state_names bn (snd st)) (state_hashes bh (snd st)) (snd st)) (k_steps c) &&
-  steps_spec init (k_steps c) &&
+  steps_spec nm (base_names c) (base_hashes c) (k_cap c) init (k_steps c) &&
   forallb (query_ok (final_obs c)) (k_queries c).
 
 Definition check_line (l : list Z) : Z :=
@@ -155,24 +257,25 @@ Definition check_line (l : list Z) : Z :=
   | None => code_decode_error
   end.
 
-(** diagnostics: per operation 0 = fine, 1 = model state differs, 2 = invariant / step clause
-    fails on the observation, 3 = both; then per query 0/1/2/3 likewise *)
+(** diagnostics: per step 0 = fine, 1 = model state / answer differs, 2 = invariant / step clause
+    fails on the observation, 3 = both; then -1; then per final query 0/1/2/3 likewise *)
 Definition explain_line (l : list Z) : list Z :=
   match decode get_case l with
   | Some c =>
       let nm := names_of_pool (case_certs c) in
       let bn := base_names c in
       let bh := base_hashes c in
-      let (bs, sf) := replay (k_cap c) init (k_steps c) in
-      let fix go (prev : state) (bs : list bool) (steps : list (option op * state)) : list Z :=
+      let (bs, df) := replay (dinit (k_cap c)) (k_steps c) in
+      let fix go (cap : nat) (prev : state) (bs : list bool) (steps : list (wstep * state)) : list Z :=
         match bs, steps with
-        | b :: bs', (o, obs) :: r =>
-            code b (inv_b nm (k_cap c) (state_names bn obs) (state_hashes bh obs) obs && step_spec_b prev o obs)
-            :: go obs bs' r
+        | b :: bs', (w, obs) :: r =>
+            let cap' := cap_after cap w in
+            code b (inv_b nm cap' (state_names bn obs) (state_hashes bh obs) obs && step_spec_b prev w obs)
+            :: go cap' obs bs' r
         | _, _ => []
         end in
-      go init bs (k_steps c) ++ [(-1)%Z] ++
-      map (fun q => code (strs_eqb (map c_hash (all_matching sf (fst q))) (snd q))
+      go (k_cap c) init bs (k_steps c) ++ [(-1)%Z] ++
+      map (fun q => code (strs_eqb (answer (d_st df) (fst q)) (snd q))
                          (query_ok (final_obs c) q)) (k_queries c)
   | None => []
   end.
